@@ -8,6 +8,7 @@ import (
 	"strings"
 
 	"golang.org/x/tools/go/ssa"
+	"golang.org/x/tools/go/ssa/ssautil"
 
 	"charonverif/internal/an"
 	"charonverif/internal/rt"
@@ -124,7 +125,18 @@ func lockRule(c *rt.Ctx, pkgs []string, table an.LockTable) {
 				}
 			}
 		}
-		// callers outside the analysed set?
+		// method values / method expressions go through synthetic wrappers ($bound, $thunk) that are
+		// created on demand: the existence of one that calls fn means fn escapes as a value.
+		for g := range ssautil.AllFunctions(c.P.SSA) {
+			if g.Synthetic == "" || g.Blocks == nil {
+				continue
+			}
+			for _, in := range an.Instrs(g, false) {
+				if ci, ok := in.(ssa.CallInstruction); ok && an.Orig(ci.Common().StaticCallee()) == fn {
+					taken = true
+				}
+			}
+		}
 		if taken {
 			c.Unsure(k, fn.Pos(), "function needing a lock on entry is used as a value")
 			continue
